@@ -335,13 +335,23 @@ def describe_exc(exc):
 
 def run_processors(paths, inp, lay, record_apps=False):
     """load_ff_library + MetaMolecule + MapToMolecule + ApplyLinks + ApplyModifications on one input.
-    Returns {"base":..., "final":..., "exc": {...stage...}}; never raises for errors of the code under test."""
+    Returns {"base":..., "final":..., "exc": {...stage...}}; never raises for errors of the code under test.
+    A run that does not return within CASE_TIMEOUT is repeated once with three times the limit (the machine may be
+    overloaded); only a second time-out is reported as a hang."""
+    res = _run_processors(paths, inp, lay, CASE_TIMEOUT)
+    if res.get("exc", {}).get("type") == "HANG":
+        res = _run_processors(paths, inp, lay, 3 * CASE_TIMEOUT)
+    return res
+
+
+def _run_processors(paths, inp, lay, limit):
     from polyply.src.load_library import load_ff_library
     from polyply import MetaMolecule, MapToMolecule, ApplyLinks
     from polyply.src.apply_modifications import ApplyModifications
     res = {}
+    stage = "load"
     try:
-        with time_limit(CASE_TIMEOUT):
+        with time_limit(limit):
             stage = "load"
             ff = load_ff_library("t", None, [Path(p) for p in paths])
             stage = "graph"
@@ -362,7 +372,7 @@ def run_processors(paths, inp, lay, record_apps=False):
             p.pop("_idx")
             res["final"] = p
     except CaseTimeout:
-        res["exc"] = {"stage": stage, "type": "HANG", "msg": "no return within %d s" % CASE_TIMEOUT, "site": ""}
+        res = {"exc": {"stage": stage, "type": "HANG", "msg": "no return within %d s" % limit, "site": ""}}
     except Exception as exc:  # the code under test must not raise on in-domain inputs: reported by the caller
         d = describe_exc(exc)
         d["stage"] = stage
@@ -372,6 +382,13 @@ def run_processors(paths, inp, lay, record_apps=False):
 
 def run_gen_params(paths, inp, lay, wd, name="t"):
     """the real entry point: sequence .json file in, .itp file out, read back with the small reader"""
+    res = _run_gen_params(paths, inp, lay, wd, name, CASE_TIMEOUT)
+    if res.get("exc", {}).get("type") == "HANG":
+        res = _run_gen_params(paths, inp, lay, wd, name, 3 * CASE_TIMEOUT)
+    return res
+
+
+def _run_gen_params(paths, inp, lay, wd, name, limit):
     from polyply.src.gen_itp import gen_params
     wd = Path(wd)
     seqf = wd / "seq.json"
@@ -382,12 +399,12 @@ def run_gen_params(paths, inp, lay, wd, name="t"):
     res = {}
     argv = sys.argv
     try:
-        with time_limit(CASE_TIMEOUT):
+        with time_limit(limit):
             sys.argv = ["polyply", "gen_params"]
             gen_params(name=name, outpath=out, inpath=[Path(p) for p in paths], lib=None, seq=None, seq_file=seqf, mods=mods_arg(inp))
         res["final"] = read_itp(out)
     except CaseTimeout:
-        res["exc"] = {"stage": "gen_params", "type": "HANG", "msg": "no return within %d s" % CASE_TIMEOUT, "site": ""}
+        res["exc"] = {"stage": "gen_params", "type": "HANG", "msg": "no return within %d s" % limit, "site": ""}
     except c.MachineryError:
         raise
     except Exception as exc:
@@ -430,3 +447,21 @@ def ffs_of(res):
             for x in b["inters"]:
                 x["par"] = list(x["par"]) if not isinstance(x["par"], dict) else []
     return ffs
+
+
+# --------------------------------------------------------------------------- attribution of a deviation to an open finding
+
+ERR_FINDING = {"mismatch": "F31", "index": "F14", "fragindex": "F32"}
+PRIORITY = ["F30", "F14", "F32", "F31"]
+
+
+def attribute(fired, err=""):
+    """which open finding a behaviour of the I-layer with the open deviations on is attributed to: the one whose error it
+    is, else the only one that changed the behaviour, else the first in a fixed order"""
+    fired = list(fired)
+    if err and ERR_FINDING.get(err) in fired:
+        return ERR_FINDING[err]
+    for f in PRIORITY:
+        if f in fired:
+            return f
+    return fired[0] if fired else None
